@@ -27,6 +27,7 @@ Stmt   =
   ["block", name, [Stmt]]                <%block name="..">..</%block>
   ["nscall", ns, member, {k: literal}, [Stmt]]   <%ns:member k="literal">..</%ns:member>
   ["callerbody"]                         ${caller.body()}
+  ["ndef", Def]                          <%def name="..">..</%def> written inside a def (a closure)
   ["assign", name, literal]              <% name = literal %>      (template body only)
   ["kwitems", name]                      ${sorted(name.items())}
   ["ctxget", name]                       ${context.get('name', '-')}
@@ -121,6 +122,8 @@ def p_stmt(s):
         return "<%%%s:%s%s>%s</%%%s:%s>" % (s[1], s[2], attrs, p_stmts(s[4]), s[1], s[2])
     if k == "callerbody":
         return "${caller.body()}"
+    if k == "ndef":
+        return p_def(s[1])
     if k == "assign":
         return "<%% %s = %s %%>" % (s[1], s[2])
     if k == "kwitems":
